@@ -600,4 +600,698 @@ theorem splitPathGo_mem (cx : Ctx) (m : Mode) : ∀ (path out : List Node) (u : 
     · cases h
     · cases h
 
+/-! ## the result does not depend on the other subset bits -/
+
+/-- map the payload of an outcome -/
+def Outcome.map {α β : Type} (f : α → β) : Outcome α → Outcome β
+  | .ok a => .ok (f a)
+  | .err k => .err k
+  | .panic w => .panic w
+
+/-- the observable part of a tokenisation: outcome class and, per token, unit id and both ranges -/
+def coreOut (o : Outcome (List Node)) : Outcome (List (Nat × Nat × Nat × Nat × Nat)) := o.map (List.map Node.core)
+
+/-- `id` names an existing word of the lexicon set (dictionary id fits the 4 bits of a `WordId`) -/
+def Resolves (lex : Lex) (id : Nat) : Prop :=
+  dicOf id < 16 ∧ ∃ l e, lex[dicOf id]? = some l ∧ l[wordOf id]? = some e
+
+/-- `get_word_info_subset` either panics in the same way for every subset (no such dictionary / word)
+or the word exists -/
+theorem gwis_cases (lex : Lex) (id : Nat) :
+    (∃ w, ∀ s, getWordInfoSubset lex id s = .panic w) ∨
+    (∃ l e, lex[dicOf id]? = some l ∧ l[wordOf id]? = some e) := by
+  cases hl : lex[dicOf id]? with
+  | none => left; exact ⟨"lexicons[dict_id]: index out of bounds", fun s => by simp [getWordInfoSubset, hl]⟩
+  | some l =>
+    cases he : l[wordOf id]? with
+    | none => left; exact ⟨"word id outside the offset table", fun s => by simp [getWordInfoSubset, hl, he]⟩
+    | some e => right; exact ⟨l, e, rfl, he⟩
+
+/-- the split list of mode `m` in a loaded word info -/
+def Info.splits (i : Info) : Mode → List Nat
+  | .A => i.a
+  | .B => i.b
+  | .C => []
+
+theorem splitsOf_eq (n : Node) (m : Mode) : splitsOf n m = n.info.splits m := by
+  cases m <;> rfl
+
+theorem dicOf_restamp (d r : Nat) (hd : d < 16) : dicOf (restamp d r) < 16 := by
+  unfold restamp
+  by_cases h : dicOf r > 0
+  · simp only [h, if_true]
+    unfold mkId dicOf wordOf DIC_SHIFT
+    omega
+  · simp only [h, if_false]; omega
+
+/-- what two subsets that both hold the split field of mode `m` agree on, for every word: outcome
+class, key length, the unit list of the mode; and the units again have 4-bit dictionary ids -/
+theorem gwis_agree (lex : Lex) (id : Nat) (s s' : Subset) (m : Mode)
+    (hs : ∀ x ∈ modeSubset m, x ∈ s) (hs' : ∀ x ∈ modeSubset m, x ∈ s') (hm : m ≠ Mode.C) (hd : dicOf id < 16) :
+    (∃ w, getWordInfoSubset lex id s = .panic w ∧ getWordInfoSubset lex id s' = .panic w) ∨
+    (∃ i i', getWordInfoSubset lex id s = .ok i ∧ getWordInfoSubset lex id s' = .ok i' ∧
+      i.hwl = i'.hwl ∧ i.splits m = i'.splits m ∧ ∀ x ∈ i.splits m, dicOf x < 16) := by
+  rcases gwis_cases lex id with ⟨w, hw⟩ | ⟨l, e, hl, he⟩
+  · left; exact ⟨w, hw s, hw s'⟩
+  · right
+    refine ⟨_, _, getWordInfoSubset_eq lex id s l e hd hl he, getWordInfoSubset_eq lex id s' l e hd hl he, ?_, ?_, ?_⟩
+    · cases m
+      · have h1 := hwl_read_of_later s SPLIT_A (hs _ (by simp [modeSubset])) (by decide)
+        have h2 := hwl_read_of_later s' SPLIT_A (hs' _ (by simp [modeSubset])) (by decide)
+        simp [h1, h2]
+      · have h1 := hwl_read_of_later s SPLIT_B (hs _ (by simp [modeSubset])) (by decide)
+        have h2 := hwl_read_of_later s' SPLIT_B (hs' _ (by simp [modeSubset])) (by decide)
+        simp [h1, h2]
+      · exact absurd rfl hm
+    · cases m
+      · have h1 : SPLIT_A ∈ s := hs _ (by simp [modeSubset])
+        have h2 : SPLIT_A ∈ s' := hs' _ (by simp [modeSubset])
+        simp [Info.splits, h1, h2]
+      · have h1 : SPLIT_B ∈ s := hs _ (by simp [modeSubset])
+        have h2 : SPLIT_B ∈ s' := hs' _ (by simp [modeSubset])
+        simp [Info.splits, h1, h2]
+      · exact absurd rfl hm
+    · intro x hx
+      cases m
+      · have h1 : SPLIT_A ∈ s := hs _ (by simp [modeSubset])
+        simp only [Info.splits, h1, if_true, List.mem_map] at hx
+        obtain ⟨r, _, rfl⟩ := hx
+        exact dicOf_restamp _ _ hd
+      · have h1 : SPLIT_B ∈ s := hs _ (by simp [modeSubset])
+        simp only [Info.splits, h1, if_true, List.mem_map] at hx
+        obtain ⟨r, _, rfl⟩ := hx
+        exact dicOf_restamp _ _ hd
+      · exact absurd rfl hm
+
+/-- the iterator's observable output is the same under both subsets (the sub-tokens' own word infos
+differ: they are loaded with the respective subset) -/
+theorem splitGo_agree (v : Variant) (lex : Lex) (b2c c2b : List Nat) (s s' : Subset) (m : Mode)
+    (hs : ∀ x ∈ modeSubset m, x ∈ s) (hs' : ∀ x ∈ modeSubset m, x ∈ s') (hm : m ≠ Mode.C) :
+    ∀ (ws : List Nat) (co bo cend bend : Nat), (∀ x ∈ ws, dicOf x < 16) →
+      coreOut (splitGo ⟨v, lex, s, b2c, c2b⟩ ws co bo cend bend) =
+      coreOut (splitGo ⟨v, lex, s', b2c, c2b⟩ ws co bo cend bend)
+  | [], _, _, _, _, _ => rfl
+  | [wid], co, bo, cend, bend, hd => by
+    rcases gwis_agree lex wid s s' m hs hs' hm (hd wid (by simp)) with ⟨w, h1, h2⟩ | ⟨i, i', h1, h2, _, _, _⟩
+    · simp [splitGo, h1, h2, coreOut, Outcome.map]
+    · simp [splitGo, h1, h2, coreOut, Outcome.map, Node.core]
+  | wid :: w2 :: rest, co, bo, cend, bend, hd => by
+    rcases gwis_agree lex wid s s' m hs hs' hm (hd wid (by simp)) with ⟨w, h1, h2⟩ | ⟨i, i', h1, h2, hh, _, _⟩
+    · simp [splitGo, h1, h2, coreOut, Outcome.map]
+    · have hue : unitEnd ⟨v, lex, s, b2c, c2b⟩ bo i.hwl bend = unitEnd ⟨v, lex, s', b2c, c2b⟩ bo i'.hwl bend := by
+        rw [hh]; rfl
+      simp only [splitGo, h1, h2, hue]
+      cases hu : unitEnd ⟨v, lex, s', b2c, c2b⟩ bo i'.hwl bend with
+      | err k => rfl
+      | panic w => rfl
+      | ok p =>
+        obtain ⟨ce, be⟩ := p
+        have ih := splitGo_agree v lex b2c c2b s s' m hs hs' hm (w2 :: rest) ce be cend bend
+          (fun x hx => hd x (List.mem_cons_of_mem _ hx))
+        simp only [coreOut] at ih ⊢
+        cases h3 : splitGo ⟨v, lex, s, b2c, c2b⟩ (w2 :: rest) ce be cend bend <;>
+          cases h4 : splitGo ⟨v, lex, s', b2c, c2b⟩ (w2 :: rest) ce be cend bend <;>
+          simp [h3, h4, Outcome.map] at ih ⊢
+        · simp [Node.core, ih]
+        · exact ih
+        · exact ih
+
+/-- two resolved nodes that differ only in what else their word infos hold -/
+def NodeAgree (m : Mode) (n n' : Node) : Prop :=
+  n.cb = n'.cb ∧ n.ce = n'.ce ∧ n.bb = n'.bb ∧ n.be = n'.be ∧ n.wid = n'.wid ∧
+    n.info.splits m = n'.info.splits m ∧ ∀ x ∈ n.info.splits m, dicOf x < 16
+
+/-- one iteration of `resolve_best_path` under either subset: same outcome, nodes agree -/
+theorem resolveNode_agree (lex : Lex) (c2b : List Nat) (s s' : Subset) (m : Mode)
+    (hs : ∀ x ∈ modeSubset m, x ∈ s) (hs' : ∀ x ∈ modeSubset m, x ∈ s') (r : RawNode) (hd : dicOf r.wid < 16) :
+    (∃ w, resolveNode lex s c2b r = .panic w ∧ resolveNode lex s' c2b r = .panic w) ∨
+    (∃ n n', resolveNode lex s c2b r = .ok n ∧ resolveNode lex s' c2b r = .ok n' ∧ NodeAgree m n n') := by
+  unfold resolveNode
+  by_cases hsyn : (r.syn || isOov r.wid) = true
+  · simp only [hsyn, if_true]
+    cases hb : currByteIdx c2b r.cb with
+    | err k => simp [currByteIdx] at hb; split at hb <;> cases hb
+    | panic w => left; exact ⟨w, rfl, rfl⟩
+    | ok bb =>
+      cases he : currByteIdx c2b r.ce with
+      | err k => simp [currByteIdx] at he; split at he <;> cases he
+      | panic w => left; exact ⟨w, rfl, rfl⟩
+      | ok be =>
+        right
+        exact ⟨_, _, rfl, rfl, rfl, rfl, rfl, rfl, rfl, rfl, by cases m <;> simp [Info.splits, Info.empty]⟩
+  · simp only [hsyn]
+    have key : (∃ w, getWordInfoSubset lex r.wid s = .panic w ∧ getWordInfoSubset lex r.wid s' = .panic w) ∨
+        (∃ i i', getWordInfoSubset lex r.wid s = .ok i ∧ getWordInfoSubset lex r.wid s' = .ok i' ∧
+          i.splits m = i'.splits m ∧ ∀ x ∈ i.splits m, dicOf x < 16) := by
+      by_cases hm : m = Mode.C
+      · subst hm
+        rcases gwis_cases lex r.wid with ⟨w, hw⟩ | ⟨l, e, hl, he⟩
+        · left; exact ⟨w, hw s, hw s'⟩
+        · right
+          exact ⟨_, _, getWordInfoSubset_eq lex r.wid s l e hd hl he, getWordInfoSubset_eq lex r.wid s' l e hd hl he,
+            rfl, by simp [Info.splits]⟩
+      · rcases gwis_agree lex r.wid s s' m hs hs' hm hd with ⟨w, h1, h2⟩ | ⟨i, i', h1, h2, _, h4, h5⟩
+        · left; exact ⟨w, h1, h2⟩
+        · right; exact ⟨i, i', h1, h2, h4, h5⟩
+    rcases key with ⟨w, h1, h2⟩ | ⟨i, i', h1, h2, h3, h4⟩
+    · left; exact ⟨w, by simp [h1], by simp [h2]⟩
+    · simp only [Bool.false_eq_true, if_false, h1, h2]
+      cases hb : currByteIdx c2b r.cb with
+      | err k => simp [currByteIdx] at hb; split at hb <;> cases hb
+      | panic w => left; exact ⟨w, rfl, rfl⟩
+      | ok bb =>
+        cases he : currByteIdx c2b r.ce with
+        | err k => simp [currByteIdx] at he; split at he <;> cases he
+        | panic w => left; exact ⟨w, rfl, rfl⟩
+        | ok be => right; exact ⟨_, _, rfl, rfl, rfl, rfl, rfl, rfl, rfl, h3, h4⟩
+
+/-- `split_path`'s loop body on agreeing nodes -/
+theorem expand_agree (v : Variant) (lex : Lex) (b2c c2b : List Nat) (s s' : Subset) (m : Mode)
+    (hs : ∀ x ∈ modeSubset m, x ∈ s) (hs' : ∀ x ∈ modeSubset m, x ∈ s') (n n' : Node) (h : NodeAgree m n n') :
+    coreOut (expand ⟨v, lex, s, b2c, c2b⟩ m n) = coreOut (expand ⟨v, lex, s', b2c, c2b⟩ m n') := by
+  obtain ⟨h1, h2, h3, h4, h5, h6, h7⟩ := h
+  simp only [expand, numSplits, splitsOf_eq, h6]
+  by_cases hle : (n'.info.splits m).length ≤ 1
+  · simp [hle, coreOut, Outcome.map, Node.core, h1, h2, h3, h4, h5]
+  · simp only [hle, if_false]
+    have hm : m ≠ Mode.C := by
+      intro hc; subst hc; simp [Info.splits] at hle
+    have hsplit : ∀ (s0 : Subset) (n0 : Node), split ⟨v, lex, s0, b2c, c2b⟩ n0 m =
+        splitGo ⟨v, lex, s0, b2c, c2b⟩ (n0.info.splits m) n0.cb n0.bb n0.ce n0.be := by
+      intro s0 n0
+      cases m
+      · rfl
+      · rfl
+      · exact absurd rfl hm
+    rw [hsplit s n, hsplit s' n', h6, h1, h2, h3, h4]
+    exact splitGo_agree v lex b2c c2b s s' m hs hs' hm _ _ _ _ _ (by rw [← h6]; exact h7)
+
+def PathAgree (m : Mode) : List Node → List Node → Prop
+  | [], [] => True
+  | n :: r, n' :: r' => NodeAgree m n n' ∧ PathAgree m r r'
+  | _, _ => False
+
+theorem splitPathGo_agree (v : Variant) (lex : Lex) (b2c c2b : List Nat) (s s' : Subset) (m : Mode)
+    (hs : ∀ x ∈ modeSubset m, x ∈ s) (hs' : ∀ x ∈ modeSubset m, x ∈ s') :
+    ∀ (p p' : List Node), PathAgree m p p' →
+      coreOut (splitPathGo ⟨v, lex, s, b2c, c2b⟩ m p) = coreOut (splitPathGo ⟨v, lex, s', b2c, c2b⟩ m p')
+  | [], [], _ => rfl
+  | [], _ :: _, h => absurd h (by simp [PathAgree])
+  | _ :: _, [], h => absurd h (by simp [PathAgree])
+  | n :: r, n' :: r', h => by
+    obtain ⟨hn, hr⟩ := h
+    have h1 := expand_agree v lex b2c c2b s s' m hs hs' n n' hn
+    have h2 := splitPathGo_agree v lex b2c c2b s s' m hs hs' r r' hr
+    simp only [splitPathGo]
+    simp only [coreOut] at h1 h2 ⊢
+    cases e1 : expand ⟨v, lex, s, b2c, c2b⟩ m n <;> cases e2 : expand ⟨v, lex, s', b2c, c2b⟩ m n' <;>
+      simp [e1, e2, Outcome.map] at h1 ⊢
+    · cases g1 : splitPathGo ⟨v, lex, s, b2c, c2b⟩ m r <;> cases g2 : splitPathGo ⟨v, lex, s', b2c, c2b⟩ m r' <;>
+        simp [g1, g2, Outcome.map] at h2 ⊢
+      · simp [h1, h2]
+      · exact h2
+      · exact h2
+    · exact h1
+    · exact h1
+
+theorem splitPath_agree (v : Variant) (lex : Lex) (b2c c2b : List Nat) (s s' : Subset) (m : Mode)
+    (hs : ∀ x ∈ modeSubset m, x ∈ s) (hs' : ∀ x ∈ modeSubset m, x ∈ s') (p p' : List Node) (h : PathAgree m p p') :
+    coreOut (splitPath ⟨v, lex, s, b2c, c2b⟩ m p) = coreOut (splitPath ⟨v, lex, s', b2c, c2b⟩ m p') := by
+  unfold splitPath
+  by_cases hm : m = Mode.C
+  · simp only [hm, if_true, coreOut, Outcome.map]
+    subst hm
+    congr 1
+    induction p generalizing p' with
+    | nil => cases p' with
+      | nil => rfl
+      | cons _ _ => simp [PathAgree] at h
+    | cons n r ih =>
+      cases p' with
+      | nil => simp [PathAgree] at h
+      | cons n' r' =>
+        obtain ⟨⟨h1, h2, h3, h4, h5, _⟩, hr⟩ := h
+        simp [Node.core, h1, h2, h3, h4, h5, ih r' hr]
+  · simp only [hm, if_false]
+    exact splitPathGo_agree v lex b2c c2b s s' m hs hs' p p' h
+
+theorem resolvePath_agree (lex : Lex) (c2b : List Nat) (s s' : Subset) (m : Mode)
+    (hs : ∀ x ∈ modeSubset m, x ∈ s) (hs' : ∀ x ∈ modeSubset m, x ∈ s') :
+    ∀ (raws : List RawNode), (∀ r ∈ raws, dicOf r.wid < 16) →
+      (∃ w, resolvePath lex s c2b raws = .panic w ∧ resolvePath lex s' c2b raws = .panic w) ∨
+      (∃ p p', resolvePath lex s c2b raws = .ok p ∧ resolvePath lex s' c2b raws = .ok p' ∧ PathAgree m p p')
+  | [], _ => Or.inr ⟨[], [], rfl, rfl, trivial⟩
+  | r :: rest, hd => by
+    simp only [resolvePath]
+    rcases resolveNode_agree lex c2b s s' m hs hs' r (hd r (by simp)) with ⟨w, h1, h2⟩ | ⟨n, n', h1, h2, hn⟩
+    · left; exact ⟨w, by simp [h1], by simp [h2]⟩
+    · rcases resolvePath_agree lex c2b s s' m hs hs' rest (fun x hx => hd x (List.mem_cons_of_mem _ hx)) with
+        ⟨w, g1, g2⟩ | ⟨p, p', g1, g2, hp⟩
+      · left; exact ⟨w, by simp [h1, g1], by simp [h2, g2]⟩
+      · right; exact ⟨n :: p, n' :: p', by simp [h1, g1], by simp [h2, g2], hn, hp⟩
+
+/-- resolve + `split_path` over a whole path, observable part -/
+def directCore (v : Variant) (lex : Lex) (b2c c2b : List Nat) (s : Subset) (m : Mode) (raws : List RawNode) :
+    Outcome (List (Nat × Nat × Nat × Nat × Nat)) :=
+  coreOut (match resolvePath lex s c2b raws with
+    | .ok p => splitPath ⟨v, lex, s, b2c, c2b⟩ m p
+    | .err k => .err k
+    | .panic w => .panic w)
+
+/-! ## `set_mode` does not re-normalise: the HEAD_WORD_LENGTH bit does not matter -/
+
+theorem isEmpty_congr (f1 f2 : Subset) (h : ∀ x, x ∈ f1 ↔ x ∈ f2) : f1.isEmpty = f2.isEmpty := by
+  cases f1 with
+  | nil =>
+    cases f2 with
+    | nil => rfl
+    | cons a _ => exact absurd ((h a).mpr (by simp)) (by simp)
+  | cons a _ =>
+    cases f2 with
+    | nil => exact absurd ((h a).mp (by simp)) (by simp)
+    | cons _ _ => rfl
+
+/-- the reader only asks "is this field requested" and "is anything still requested": two requests
+with the same members are read identically -/
+theorem parseGo_congr : ∀ (fs : List (Nat × Bool)) (f1 f2 : Subset), (∀ x, x ∈ f1 ↔ x ∈ f2) →
+    parseGo fs f1 = parseGo fs f2
+  | [], _, _, _ => rfl
+  | (f, heavy) :: rest, f1, f2, h => by
+    have hf : ∀ x, x ∈ f1.filter (· ≠ f) ↔ x ∈ f2.filter (· ≠ f) := by
+      intro x; simp only [List.mem_filter, h x]
+    simp only [parseGo, isEmpty_congr f1 f2 h]
+    by_cases he : f2.isEmpty
+    · simp [he]
+    · simp only [he, Bool.false_eq_true, if_false]
+      cases heavy
+      · simp only [Bool.false_eq_true, if_false]
+        rw [parseGo_congr rest _ _ hf]
+      · simp only [if_true]
+        by_cases hm : f ∈ f2
+        · simp only [(h f).mpr hm, hm, if_true]
+          rw [parseGo_congr rest _ _ hf]
+        · have hm1 : f ∉ f1 := fun hc => hm ((h f).mp hc)
+          simp only [hm1, hm, if_false]
+          exact parseGo_congr rest _ _ h
+
+theorem parseGo_heavy_in (f : Nat) (rest : List (Nat × Bool)) (flds : Subset) (hne : flds.isEmpty = false)
+    (h : f ∈ flds) : parseGo ((f, true) :: rest) flds = f :: parseGo rest (flds.filter (· ≠ f)) := by
+  simp [parseGo, hne, h]
+
+theorem parseGo_heavy_out (f : Nat) (rest : List (Nat × Bool)) (flds : Subset) (hne : flds.isEmpty = false)
+    (h : f ∉ flds) : parseGo ((f, true) :: rest) flds = parseGo rest flds := by
+  simp [parseGo, hne, h]
+
+theorem parseGo_light (f : Nat) (rest : List (Nat × Bool)) (flds : Subset) (hne : flds.isEmpty = false) :
+    parseGo ((f, false) :: rest) flds = f :: parseGo rest (flds.filter (· ≠ f)) := by
+  simp [parseGo, hne]
+
+/-- **two requests that differ at most in the HEAD_WORD_LENGTH bit and ask for some field stored behind
+it load exactly the same fields** (the key length is a "light" field: written whenever the reader
+walks past it) -/
+theorem readFields_hwl_bit_irrelevant (s1 s2 : Subset) (h : ∀ x, x ≠ HEAD_WORD_LENGTH → (x ∈ s1 ↔ x ∈ s2))
+    (g : Nat) (hg : g ∈ s1) (hg0 : g ≠ SURFACE) (hg1 : g ≠ HEAD_WORD_LENGTH) :
+    readFields s1 = readFields s2 := by
+  have hg2 : g ∈ s2 := (h g hg1).mp hg
+  simp only [SURFACE, HEAD_WORD_LENGTH] at hg0 hg1 h
+  have ne1 : s1.isEmpty = false := by cases s1 with | nil => simp at hg | cons _ _ => rfl
+  have ne2 : s2.isEmpty = false := by cases s2 with | nil => simp at hg2 | cons _ _ => rfl
+  have ne1' : (s1.filter (· ≠ 0)).isEmpty = false := by
+    have : g ∈ s1.filter (· ≠ 0) := by simp [List.mem_filter, hg, hg0]
+    cases hs : s1.filter (· ≠ 0) with
+    | nil => rw [hs] at this; simp at this
+    | cons _ _ => rfl
+  have ne2' : (s2.filter (· ≠ 0)).isEmpty = false := by
+    have : g ∈ s2.filter (· ≠ 0) := by simp [List.mem_filter, hg2, hg0]
+    cases hs : s2.filter (· ≠ 0) with
+    | nil => rw [hs] at this; simp at this
+    | cons _ _ => rfl
+  have h0 : (0 ∈ s1) ↔ (0 ∈ s2) := h 0 (by decide)
+  unfold readFields fieldOrder
+  by_cases z : 0 ∈ s2
+  · have z1 : 0 ∈ s1 := h0.mpr z
+    rw [parseGo_heavy_in 0 _ s1 ne1 z1, parseGo_heavy_in 0 _ s2 ne2 z,
+      parseGo_light 1 _ _ ne1', parseGo_light 1 _ _ ne2']
+    congr 2
+    apply parseGo_congr
+    intro x
+    simp only [List.mem_filter, decide_eq_true_eq]
+    by_cases hx : x = 1
+    · simp [hx]
+    · simp [hx, h x hx]
+  · have z1 : 0 ∉ s1 := fun hc => z (h0.mp hc)
+    rw [parseGo_heavy_out 0 _ s1 ne1 z1, parseGo_heavy_out 0 _ s2 ne2 z,
+      parseGo_light 1 _ _ ne1, parseGo_light 1 _ _ ne2]
+    congr 1
+    apply parseGo_congr
+    intro x
+    simp only [List.mem_filter, decide_eq_true_eq]
+    by_cases hx : x = 1
+    · simp [hx]
+    · simp [hx, h x hx]
+
+/-- consequently `get_word_info_subset` is the same function for both requests -/
+theorem gwis_hwl_bit_irrelevant (lex : Lex) (id : Nat) (s1 s2 : Subset)
+    (h : ∀ x, x ≠ HEAD_WORD_LENGTH → (x ∈ s1 ↔ x ∈ s2))
+    (g : Nat) (hg : g ∈ s1) (hg0 : g ≠ SURFACE) (hg1 : g ≠ HEAD_WORD_LENGTH) :
+    getWordInfoSubset lex id s1 = getWordInfoSubset lex id s2 := by
+  have hr := readFields_hwl_bit_irrelevant s1 s2 h g hg hg0 hg1
+  have ha : (SPLIT_A ∈ s1) ↔ (SPLIT_A ∈ s2) := h _ (by decide)
+  have hb : (SPLIT_B ∈ s1) ↔ (SPLIT_B ∈ s2) := h _ (by decide)
+  unfold getWordInfoSubset
+  simp only [hr, ha, hb]
+
+/-- everything `split` and `resolve_best_path` do with the subset goes through `get_word_info_subset` -/
+theorem splitGo_congr (v : Variant) (lex : Lex) (b2c c2b : List Nat) (s1 s2 : Subset)
+    (h : ∀ id, getWordInfoSubset lex id s1 = getWordInfoSubset lex id s2) :
+    ∀ (ws : List Nat) (co bo cend bend : Nat),
+      splitGo ⟨v, lex, s1, b2c, c2b⟩ ws co bo cend bend = splitGo ⟨v, lex, s2, b2c, c2b⟩ ws co bo cend bend
+  | [], _, _, _, _ => rfl
+  | [wid], co, bo, cend, bend => by simp only [splitGo, h wid]
+  | wid :: w2 :: rest, co, bo, cend, bend => by
+    simp only [splitGo, h wid]
+    cases getWordInfoSubset lex wid s2 with
+    | err k => rfl
+    | panic w => rfl
+    | ok info =>
+      have hue : unitEnd ⟨v, lex, s1, b2c, c2b⟩ bo info.hwl bend = unitEnd ⟨v, lex, s2, b2c, c2b⟩ bo info.hwl bend := rfl
+      simp only [hue]
+      cases unitEnd ⟨v, lex, s2, b2c, c2b⟩ bo info.hwl bend with
+      | err k => rfl
+      | panic w => rfl
+      | ok p =>
+        obtain ⟨ce, be⟩ := p
+        simp only [splitGo_congr v lex b2c c2b s1 s2 h (w2 :: rest) ce be cend bend]
+
+theorem splitPath_congr (v : Variant) (lex : Lex) (b2c c2b : List Nat) (s1 s2 : Subset)
+    (h : ∀ id, getWordInfoSubset lex id s1 = getWordInfoSubset lex id s2) (m : Mode) (p : List Node) :
+    splitPath ⟨v, lex, s1, b2c, c2b⟩ m p = splitPath ⟨v, lex, s2, b2c, c2b⟩ m p := by
+  unfold splitPath
+  by_cases hm : m = Mode.C
+  · simp [hm]
+  · simp only [hm, if_false]
+    induction p with
+    | nil => rfl
+    | cons n r ih =>
+      have he : expand ⟨v, lex, s1, b2c, c2b⟩ m n = expand ⟨v, lex, s2, b2c, c2b⟩ m n := by
+        unfold expand
+        by_cases hle : numSplits n m ≤ 1
+        · simp [hle]
+        · simp only [hle, if_false]
+          cases m
+          · exact splitGo_congr v lex b2c c2b s1 s2 h _ _ _ _ _
+          · exact splitGo_congr v lex b2c c2b s1 s2 h _ _ _ _ _
+          · exact absurd rfl hm
+      simp only [splitPathGo, he, ih]
+
+theorem resolvePath_congr (lex : Lex) (c2b : List Nat) (s1 s2 : Subset)
+    (h : ∀ id, getWordInfoSubset lex id s1 = getWordInfoSubset lex id s2) (raws : List RawNode) :
+    resolvePath lex s1 c2b raws = resolvePath lex s2 c2b raws := by
+  induction raws with
+  | nil => rfl
+  | cons r rest ih => simp only [resolvePath, resolveNode, h r.wid, ih]
+
+/-! ## the repaired iterator is total: clause 1 without "if `split_path` returns" -/
+
+/-- the range facts of a built buffer of `nb` bytes (cf. C03 `TablesRange`): `mod_b2c[i]` exists for every
+`i ≤ nb` and is an index of `mod_c2b` -/
+def TablesRange (b2c c2b : List Nat) (nb : Nat) : Prop :=
+  ∀ i, i ≤ nb → ∃ c : Nat, b2c[i]? = some c ∧ ∃ b : Nat, c2b[c]? = some b
+
+/-- every stored reference names an existing word once re-stamped with its owner's dictionary id — what
+`validate_entries` (builder) checks for every split of every row, for at most 15 user dictionaries -/
+def LexClosed (lex : Lex) : Prop :=
+  ∀ (d : Nat) (l : List Entry), d < 16 → lex[d]? = some l → ∀ e ∈ l, ∀ r ∈ e.a ++ e.b, Resolves lex (restamp d r)
+
+theorem unitEnd_d6fix_ok (cx : Ctx) (hv : cx.v = Variant.d6fix) (nb : Nat) (hr : TablesRange cx.b2c cx.c2b nb)
+    (bend : Nat) (he : bend ≤ nb) (bo hwl : Nat) : ∃ ce be, unitEnd cx bo hwl bend = .ok (ce, be) := by
+  have hm : min (bo + hwl) bend ≤ nb := Nat.le_trans (Nat.min_le_right _ _) he
+  obtain ⟨c, hc, b, hb⟩ := hr _ hm
+  exact ⟨asU16 c, asU16 b, by simp only [unitEnd, hv, hc, hb]⟩
+
+/-- the units of an existing word exist (`LexClosed`), whatever subset it is read with -/
+theorem gwis_closed (lex : Lex) (hc : LexClosed lex) (id : Nat) (s : Subset) (h : Resolves lex id) :
+    ∃ i, getWordInfoSubset lex id s = .ok i ∧ (∀ x ∈ i.a, Resolves lex x) ∧ (∀ x ∈ i.b, Resolves lex x) := by
+  obtain ⟨hd, l, e, hl, he⟩ := h
+  refine ⟨_, getWordInfoSubset_eq lex id s l e hd hl he, ?_, ?_⟩
+  · intro x hx
+    by_cases ha : SPLIT_A ∈ s
+    · simp only [ha, if_true, List.mem_map] at hx
+      obtain ⟨r, hr, rfl⟩ := hx
+      exact hc _ l hd hl e (List.mem_of_getElem? he) r (List.mem_append_left _ hr)
+    · simp [ha] at hx
+  · intro x hx
+    by_cases hb : SPLIT_B ∈ s
+    · simp only [hb, if_true, List.mem_map] at hx
+      obtain ⟨r, hr, rfl⟩ := hx
+      exact hc _ l hd hl e (List.mem_of_getElem? he) r (List.mem_append_right _ hr)
+    · simp [hb] at hx
+
+theorem splitGo_d6fix_ok (cx : Ctx) (hv : cx.v = Variant.d6fix) (hc : LexClosed cx.lex) (nb : Nat)
+    (hr : TablesRange cx.b2c cx.c2b nb) (cend bend : Nat) (he : bend ≤ nb) :
+    ∀ (ws : List Nat) (co bo : Nat), (∀ x ∈ ws, Resolves cx.lex x) → ∃ us, splitGo cx ws co bo cend bend = .ok us
+  | [], _, _, _ => ⟨[], rfl⟩
+  | [wid], co, bo, hw => by
+    obtain ⟨i, hi, _⟩ := gwis_closed cx.lex hc wid cx.s (hw wid (by simp))
+    simp only [splitGo, hi]
+    exact ⟨_, rfl⟩
+  | wid :: w2 :: rest, co, bo, hw => by
+    obtain ⟨i, hi, _⟩ := gwis_closed cx.lex hc wid cx.s (hw wid (by simp))
+    obtain ⟨ce, be, hue⟩ := unitEnd_d6fix_ok cx hv nb hr bend he bo i.hwl
+    obtain ⟨us, hus⟩ := splitGo_d6fix_ok cx hv hc nb hr cend bend he (w2 :: rest) ce be
+      (fun x hx => hw x (List.mem_cons_of_mem _ hx))
+    simp only [splitGo, hi, hue, hus]
+    exact ⟨_, rfl⟩
+
+/-- what `split_path` needs of a resolved node: its end is inside the buffer and its units exist -/
+def NodeOk (lex : Lex) (nb : Nat) (n : Node) : Prop :=
+  n.be ≤ nb ∧ (∀ x ∈ n.info.a, Resolves lex x) ∧ (∀ x ∈ n.info.b, Resolves lex x)
+
+theorem splitPathGo_d6fix_ok (cx : Ctx) (hv : cx.v = Variant.d6fix) (hc : LexClosed cx.lex) (nb : Nat)
+    (hr : TablesRange cx.b2c cx.c2b nb) (m : Mode) :
+    ∀ (p : List Node), (∀ n ∈ p, NodeOk cx.lex nb n) → ∃ out, splitPathGo cx m p = .ok out
+  | [], _ => ⟨[], rfl⟩
+  | n :: rest, hp => by
+    obtain ⟨out, ho⟩ := splitPathGo_d6fix_ok cx hv hc nb hr m rest (fun x hx => hp x (List.mem_cons_of_mem _ hx))
+    obtain ⟨hbe, ha, hb⟩ := hp n (by simp)
+    have : ∃ us, expand cx m n = .ok us := by
+      unfold expand
+      by_cases hle : numSplits n m ≤ 1
+      · exact ⟨[n], by simp [hle]⟩
+      · simp only [hle, if_false]
+        cases m
+        · exact splitGo_d6fix_ok cx hv hc nb hr n.ce n.be hbe _ _ _ ha
+        · exact splitGo_d6fix_ok cx hv hc nb hr n.ce n.be hbe _ _ _ hb
+        · simp [numSplits, splitsOf] at hle
+    obtain ⟨us, hus⟩ := this
+    exact ⟨us ++ out, by simp only [splitPathGo, hus, ho]⟩
+
+/-- a raw path node the lattice search / the path-rewrite plugins can produce: character range inside
+the text, word id an existing word unless the node is synthesised -/
+def RawOk (lex : Lex) (c2b : List Nat) (nb : Nat) (r : RawNode) : Prop :=
+  (∃ b, c2b[r.cb]? = some b) ∧ (∃ b, c2b[r.ce]? = some b ∧ asU16 b ≤ nb) ∧
+    ((r.syn || isOov r.wid) = true ∨ Resolves lex r.wid)
+
+theorem resolvePath_ok (lex : Lex) (hc : LexClosed lex) (s : Subset) (c2b : List Nat) (nb : Nat) :
+    ∀ (raws : List RawNode), (∀ r ∈ raws, RawOk lex c2b nb r) →
+      ∃ p, resolvePath lex s c2b raws = .ok p ∧ (∀ n ∈ p, NodeOk lex nb n) ∧
+        p.map (fun n => (n.cb, n.ce, n.wid)) = raws.map (fun r => (r.cb, r.ce, r.wid))
+  | [], _ => ⟨[], rfl, by simp, rfl⟩
+  | r :: rest, hr => by
+    obtain ⟨p, hp, hok, hm⟩ := resolvePath_ok lex hc s c2b nb rest (fun x hx => hr x (List.mem_cons_of_mem _ hx))
+    obtain ⟨⟨b1, h1⟩, ⟨b2, h2, h2'⟩, h3⟩ := hr r (by simp)
+    have : ∃ i, (if (r.syn || isOov r.wid) = true then Outcome.ok Info.empty else getWordInfoSubset lex r.wid s) = .ok i ∧
+        (∀ x ∈ i.a, Resolves lex x) ∧ (∀ x ∈ i.b, Resolves lex x) := by
+      by_cases hsyn : (r.syn || isOov r.wid) = true
+      · exact ⟨Info.empty, by simp [hsyn], by simp [Info.empty], by simp [Info.empty]⟩
+      · rcases h3 with h3 | h3
+        · exact absurd h3 hsyn
+        · obtain ⟨i, hi, ha, hb⟩ := gwis_closed lex hc r.wid s h3
+          exact ⟨i, by simp [hsyn, hi], ha, hb⟩
+    obtain ⟨i, hi, ha, hb⟩ := this
+    refine ⟨⟨r.cb, r.ce, asU16 b1, asU16 b2, r.wid, i⟩ :: p, ?_, ?_, ?_⟩
+    · simp only [resolvePath, resolveNode, hi, currByteIdx, h1, h2, hp]
+    · intro n hn
+      rcases List.mem_cons.mp hn with rfl | hn
+      · exact ⟨h2', ha, hb⟩
+      · exact hok n hn
+    · simp [hm]
+
+/-! ## the two routes to the original text agree (`begin()`/`end()` vs `surface()`) -/
+
+/-- both ends of the node are starts of characters: `mod_c2b` of the character index is the byte offset -/
+def OnChar (c2b : List Nat) (n : Node) : Prop := c2b[n.cb]? = some n.bb ∧ c2b[n.ce]? = some n.be
+
+/-- all table entries fit 16 bits (texts are at most 49149 bytes when analysis starts, 65535 after
+rewriting: `start_build`, `commit`) -/
+def Small (t : List Nat) : Prop := ∀ x ∈ t, x < 65536
+
+instance (t : List Nat) : Decidable (Small t) := by unfold Small; infer_instance
+
+theorem small_get (t : List Nat) (h : Small t) (i x : Nat) (hx : t[i]? = some x) : asU16 x = x :=
+  asU16_id x (h x (List.mem_of_getElem? hx))
+
+theorem splitGo_onChar (cx : Ctx) (hv : cx.v = Variant.d6fix) (hb : Small cx.b2c) (hc : Small cx.c2b)
+    (cend bend : Nat) (hend : cx.c2b[cend]? = some bend) :
+    ∀ (ws : List Nat) (co bo : Nat) (us : List Node), cx.c2b[co]? = some bo →
+      splitGo cx ws co bo cend bend = .ok us → ∀ u ∈ us, OnChar cx.c2b u
+  | [], _, _, us, _, h => by simp only [splitGo] at h; cases h; simp
+  | [wid], co, bo, us, hco, h => by
+    simp only [splitGo] at h
+    split at h
+    · cases h
+    · cases h
+    · cases h
+      intro u hu
+      simp only [List.mem_singleton] at hu
+      subst hu
+      exact ⟨hco, hend⟩
+  | wid :: w2 :: rest, co, bo, us, hco, h => by
+    simp only [splitGo] at h
+    split at h
+    · cases h
+    · cases h
+    · rename_i info _
+      split at h
+      · cases h
+      · cases h
+      · rename_i ce be hue
+        split at h
+        · rename_i r hr
+          cases h
+          have hce : cx.c2b[ce]? = some be := by
+            simp only [unitEnd, hv] at hue
+            split at hue
+            · cases hue
+            · rename_i charEnd h1
+              split at hue
+              · cases hue
+              · rename_i b h2
+                simp only [Outcome.ok.injEq, Prod.mk.injEq] at hue
+                obtain ⟨e1, e2⟩ := hue
+                rw [← e1, ← e2, small_get _ hb _ _ h1, small_get _ hc _ _ h2]
+                exact h2
+          intro u hu
+          rcases List.mem_cons.mp hu with rfl | hu
+          · exact ⟨hco, hce⟩
+          · exact splitGo_onChar cx hv hb hc cend bend hend (w2 :: rest) ce be r hce hr u hu
+        · cases h
+        · cases h
+
+theorem resolveNode_onChar (lex : Lex) (s : Subset) (c2b : List Nat) (hc : Small c2b) (r : RawNode) (n : Node)
+    (h : resolveNode lex s c2b r = .ok n) : OnChar c2b n := by
+  simp only [resolveNode] at h
+  generalize (if (r.syn || isOov r.wid) = true then Outcome.ok Info.empty else getWordInfoSubset lex r.wid s) = io at h
+  cases io with
+  | err k => simp at h
+  | panic w => simp at h
+  | ok i =>
+    simp only [currByteIdx] at h
+    cases h1 : c2b[r.cb]? with
+    | none => simp [h1] at h
+    | some b1 =>
+      cases h2 : c2b[r.ce]? with
+      | none => simp [h1, h2] at h
+      | some b2 =>
+        simp only [h1, h2, Outcome.ok.injEq] at h
+        subst h
+        exact ⟨by rw [small_get _ hc _ _ h1]; exact h1, by rw [small_get _ hc _ _ h2]; exact h2⟩
+
+theorem resolvePath_onChar (lex : Lex) (s : Subset) (c2b : List Nat) (hc : Small c2b) :
+    ∀ (raws : List RawNode) (p : List Node), resolvePath lex s c2b raws = .ok p → ∀ n ∈ p, OnChar c2b n
+  | [], p, h => by simp only [resolvePath] at h; cases h; simp
+  | r :: rest, p, h => by
+    simp only [resolvePath] at h
+    split at h
+    · rename_i n hn
+      split at h
+      · rename_i ns hns
+        cases h
+        intro x hx
+        rcases List.mem_cons.mp hx with rfl | hx
+        · exact resolveNode_onChar lex s c2b hc r _ hn
+        · exact resolvePath_onChar lex s c2b hc rest ns hns x hx
+      · cases h
+      · cases h
+    · cases h
+    · cases h
+
+/-! ## ranges in the ORIGINAL text -/
+
+/-- `begin()`/`end()` are non-decreasing in the character index (C08: the offset map is monotone) -/
+def OrigMono (c2b m2o : List Nat) : Prop :=
+  ∀ i j oi oj, i ≤ j → origIdx c2b m2o i = .ok oi → origIdx c2b m2o j = .ok oj → oi ≤ oj
+
+/-- the original-text ranges `begin()..end()` of a chain of nodes: each begins where the previous one
+ended, the first begins at the image of `c`, the last ends at the image of `c'` -/
+def OrigLinked (c2b m2o : List Nat) : List Node → Nat → Nat → Prop
+  | [], o, o' => o = o'
+  | n :: r, o, o' => origIdx c2b m2o n.cb = .ok o ∧ ∃ oe, origIdx c2b m2o n.ce = .ok oe ∧ o ≤ oe ∧ OrigLinked c2b m2o r oe o'
+
+theorem origLinked_of_linked (c2b m2o : List Nat) (hm : OrigMono c2b m2o) :
+    ∀ (us : List Node) (c b c' b' : Nat) (o : Nat), Linked us c b c' b' → (∀ u ∈ us, u.cb ≤ u.ce) →
+      (∀ u ∈ us, ∃ x, origIdx c2b m2o u.ce = .ok x) → origIdx c2b m2o c = .ok o →
+      ∃ o', origIdx c2b m2o c' = .ok o' ∧ OrigLinked c2b m2o us o o'
+  | [], c, b, c', b', o, hl, _, _, ho => by
+    obtain ⟨rfl, rfl⟩ := hl
+    exact ⟨o, ho, rfl⟩
+  | n :: r, c, b, c', b', o, hl, hf, hd, ho => by
+    obtain ⟨hc, _, hr⟩ := hl
+    obtain ⟨oe, hoe⟩ := hd n (by simp)
+    obtain ⟨o', ho', hlk⟩ := origLinked_of_linked c2b m2o hm r n.ce n.be c' b' oe hr
+      (fun u hu => hf u (List.mem_cons_of_mem _ hu)) (fun u hu => hd u (List.mem_cons_of_mem _ hu)) hoe
+    refine ⟨o', ho', ?_, oe, hoe, ?_, hlk⟩
+    · rw [hc]; exact ho
+    · exact hm n.cb n.ce o oe (hf n (by simp)) (by rw [hc]; exact ho) hoe
+
+theorem surfaceRange_ok (b2c c2b m2o : List Nat) (bb be ob oe : Nat)
+    (h : surfaceRange b2c c2b m2o bb be = .ok (ob, oe)) : m2o[bb]? = some ob ∧ m2o[be]? = some oe := by
+  unfold surfaceRange at h
+  by_cases h1 : onBoundary b2c c2b bb = true
+  · by_cases h2 : onBoundary b2c c2b be = true
+    · simp only [h1, h2, Bool.not_true, Bool.false_eq_true, if_false] at h
+      cases hb : m2o[bb]? with
+      | none => simp [hb] at h
+      | some x =>
+        cases he : m2o[be]? with
+        | none => simp [hb, he] at h
+        | some y =>
+          simp only [hb, he] at h
+          by_cases hle : x ≤ y
+          · simp only [hle, if_true, Outcome.ok.injEq, Prod.mk.injEq] at h
+            rw [h.1, h.2]; exact ⟨rfl, rfl⟩
+          · simp [hle] at h
+    · simp [h1, h2] at h
+  · simp [h1] at h
+
+theorem sorted_get {l : List Nat} (h : l.Pairwise (· ≤ ·)) {i j x y : Nat} (hij : i ≤ j)
+    (hi : l[i]? = some x) (hj : l[j]? = some y) : x ≤ y := by
+  rcases Nat.lt_or_eq_of_le hij with hlt | rfl
+  · obtain ⟨hi', rfl⟩ := List.getElem?_eq_some_iff.mp hi
+    obtain ⟨hj', rfl⟩ := List.getElem?_eq_some_iff.mp hj
+    exact (List.pairwise_iff_getElem.mp h) i j hi' hj' hlt
+  · rw [hi] at hj; cases hj; exact Nat.le_refl _
+
+/-- non-decreasing `mod_c2b` (by construction) and `m2o` (C08 `offset map monotone`) give `OrigMono` -/
+theorem origMono_of_sorted (c2b m2o : List Nat) (h1 : c2b.Pairwise (· ≤ ·)) (h2 : m2o.Pairwise (· ≤ ·)) :
+    OrigMono c2b m2o := by
+  intro i j oi oj hij hi hj
+  unfold origIdx at hi hj
+  cases ci : c2b[i]? with
+  | none => simp [ci] at hi
+  | some bi =>
+    cases cj : c2b[j]? with
+    | none => simp [cj] at hj
+    | some bj =>
+      simp only [ci, cj] at hi hj
+      cases mi : m2o[bi]? with
+      | none => simp [mi] at hi
+      | some x =>
+        cases mj : m2o[bj]? with
+        | none => simp [mj] at hj
+        | some y =>
+          simp only [mi, mj, Outcome.ok.injEq] at hi hj
+          subst hi; subst hj
+          exact sorted_get h2 (sorted_get h1 hij ci cj) mi mj
+
 end Split
